@@ -2,7 +2,7 @@
    correspondence check (vm_compute in the kernel, extracted OCaml) call only this. *)
 From Coq Require Import ZArith List Bool.
 Import ListNotations.
-From Eudoxia Require Import Model.Codec Model.RunLife Model.RunExec Model.RunTime Model.RunSim Model.RunCsv Model.RunCsvLazy Model.RunTools Model.RunGen Model.RunTrace Model.RunRest Model.RunRestSim.
+From Eudoxia Require Import Model.Codec Model.RunLife Model.RunExec Model.RunTime Model.RunSim Model.RunCsv Model.RunCsvLazy Model.RunTools Model.RunGen Model.RunTrace Model.RunRest Model.RunRestSim Model.RunTraceFile.
 
 Definition run (kind : Z) (l : list Z) : list Z :=
   match kind with
@@ -18,6 +18,7 @@ Definition run (kind : Z) (l : list Z) : list Z :=
   | 25 => run_gen_u l
   | 24 => run_csv_write l
   | 34 => run_csv_lazy l
+  | 44 => run_trace_file l
   | 19 => run_rest l
   | 29 => run_rest_codec l
   | 39 => run_restsim l
